@@ -598,6 +598,40 @@ CLAIMED['C03'] = dict(
          'aliasRisk) are outside the value-level model and covered by the python oracles and by '
          'C16. 15 known findings (countempty, groupfalsyid, addtosetfalsy, firstmissing, ...).')
 
+# theorems added after the first claim (appended to the text of the claim)
+EXTENDED = {
+    'C02': 'Whole updates are tied to their parts: for an update whose addressed top-level fields '
+           'are pairwise distinct every entry alone succeeds on the original document and the '
+           'result agrees with it on the fields it addresses (update_is_pointwise), the update '
+           'fails iff some entry alone fails (update_error_iff), and permuting operators / paths '
+           'does not change the result (update_order_irrelevant); a replacement yields exactly the '
+           'replacement\'s fields plus the kept _id (replace_then_get, replace_ok_iff).',
+    'C05': 'The invariant is lifted to the extended step (find_one, find_one_and_*, bulk_write, '
+           'builder API): stepX_inv_partial, reachableX_inv_partial / _check over every history of '
+           'all modelled operations (hypothesis GoodColl also on the collections between the '
+           'requests of a bulk), bulk_dup_rejected.',
+    'C06': 'Lifted to the extended step: stepX_uniq_inv_partial, reachableX_uniq_partial / _check '
+           '(hypothesis only on the final state), bulk_dup_write_rejected, '
+           'bulk_dup_write_error_at_index.',
+    'C08': 'For the extended step: a failed find_one_and_* (BEFORE, or delete) leaves the '
+           'collection untouched, for AFTER the exact residue is characterised (fam_failed_partial; '
+           'the full statement is refuted by the known finding fam-after-projection-error); '
+           'update_many that raises on the k-th matched document keeps exactly the documents '
+           'before it updated (update_many_document_granularity); a failing atomic bulk request is '
+           'a no-op, an ordered bulk applies exactly the requests before the first failure and an '
+           'unordered one every request that succeeds on its own, with the failing positions '
+           'reported (bulk_ordered_stops_at_first_failure, bulk_unordered_applies_every_success).',
+    'C09': 'Lifted to the extended step: stepX_expired_invisible (find_one with sort / projection, '
+           'find_one_and_*, bulk_write, builders).',
+    'C13': 'Match after upsert: a document holding every pair of a plain-equality filter satisfies '
+           'it (holds_all_matches); for such a filter and an operator update not addressing its '
+           'keys the upserted document is matched by the filter and is the one document it selects '
+           'afterwards (upsert_then_matched); the upserted _id comes from the filter, the '
+           'replacement, $set / $setOnInsert or is a fresh ObjectId (upsert_id_*); the seed has '
+           'every equality condition at its path at any depth (seed_at_paths). Known finding: '
+           'upsert-empty-key.',
+}
+
 PENDING = {
     'C02': 'model (MongoModel/Update.lean) and correspondence exist; theorems not yet proved',
     'C03': 'in progress: pipeline model depends on the expression model (C04)',
@@ -667,7 +701,7 @@ def main():
                 'engine': 'lean-model',
                 'technique': c['technique'],
                 'level_claimed': {'category': 'proof', 'design_ref': 'DESIGN.md §5 ' + pid,
-                                  'text': c['text']},
+                                  'text': c['text'] + (' ' + EXTENDED[pid] if pid in EXTENDED else '')},
                 'level_note': NOTE + c['note'],
             })
         else:
